@@ -141,6 +141,8 @@ def _enforce_fn(m, fn: FuncRef, owner: ClassRef, cls: ClassRef):
             handle_add(st, loops, None)
 
     def handle_add(st, loops, guard_head):
+        if isinstance(st, ast.Pass):
+            return
         if isinstance(st, ast.Expr) and isinstance(st.value, ast.Call):
             c = st.value
             name = astq.call_name(c)
